@@ -19,6 +19,50 @@ type SpecEnv struct {
 	header *ssa.BasicBlock   // loop header (for invariants)
 	over   map[ssa.Value]Val // phi overrides
 	inOld  bool
+	neg    bool      // current polarity is negative
+	nopol  bool      // polarity unknown (under <==>, ite conditions, or inside a remaining quantifier)
+	goal   bool      // evaluating a proof goal (else: a hypothesis)
+	qs     *[]QInst  // collects instantiable quantifiers of a hypothesis
+	sks    *[]string // collects skolem constants of a goal
+}
+
+// QInst: a universally quantified sub-formula in positive position of a hypothesis
+type QInst struct {
+	Forall string // the quantified text as it occurs in the fact
+	Var    string
+	Inst   string // (=> range body) with Var free
+}
+
+func (env *SpecEnv) flip() *SpecEnv {
+	n := *env
+	n.neg = !env.neg
+	return &n
+}
+
+func (env *SpecEnv) unknownPol() *SpecEnv {
+	n := *env
+	n.nopol = true
+	return &n
+}
+
+// evalFact evaluates a hypothesis and returns its instantiable quantifiers
+func (fr *Frame) evalFact(e Expr, env *SpecEnv) (string, []QInst) {
+	var qs []QInst
+	n := *env
+	n.qs = &qs
+	n.goal = false
+	t := fr.evalBool(e, &n)
+	return t, qs
+}
+
+// evalGoal evaluates a goal; universally quantified variables in positive position are replaced by fresh constants
+func (fr *Frame) evalGoal(e Expr, env *SpecEnv) (string, []string) {
+	var sks []string
+	n := *env
+	n.sks = &sks
+	n.goal = true
+	t := fr.evalBool(e, &n)
+	return t, sks
 }
 
 var tInt = types.Typ[types.Int]
@@ -88,6 +132,7 @@ func (fr *Frame) evalSpec(e Expr, env *SpecEnv) Val {
 	case *EUn:
 		v := fr.evalSpec(x.X, env)
 		if x.Op == "!" {
+			v = fr.evalSpec(x.X, env.flip())
 			return Val{S: sNot(fr.scalar(v)), Typ: tBool}
 		}
 		return Val{S: sApp("-", fr.scalar(v)), Typ: tInt}
@@ -400,9 +445,9 @@ func (fr *Frame) specIndex(base, idx Val, env *SpecEnv) Val {
 func (fr *Frame) specBin(x *EBin, env *SpecEnv) Val {
 	switch x.Op {
 	case "==>":
-		return Val{S: sImp(fr.evalBool(x.X, env), fr.evalBool(x.Y, env)), Typ: tBool}
+		return Val{S: sImp(fr.evalBool(x.X, env.flip()), fr.evalBool(x.Y, env)), Typ: tBool}
 	case "<==>":
-		return Val{S: sEq(fr.evalBool(x.X, env), fr.evalBool(x.Y, env)), Typ: tBool}
+		return Val{S: sEq(fr.evalBool(x.X, env.unknownPol()), fr.evalBool(x.Y, env.unknownPol())), Typ: tBool}
 	case "&&":
 		return Val{S: sAnd(fr.evalBool(x.X, env), fr.evalBool(x.Y, env)), Typ: tBool}
 	case "||":
@@ -431,16 +476,22 @@ func (fr *Frame) specBin(x *EBin, env *SpecEnv) Val {
 func (fr *Frame) specQuant(q *EQuant, env *SpecEnv) Val {
 	fc := fr.fc
 	fc.qcount++
-	bv := fmt.Sprintf("q%d_%s", fc.qcount, q.Var)
+	bv := fmt.Sprintf("qv%dx_%s", fc.qcount, q.Var)
+	// a universal in positive position of a goal (or an existential in negative position) is skolemised
+	skolem := env.goal && !env.nopol && env.sks != nil && ((q.All && !env.neg) || (!q.All && env.neg))
+	if skolem {
+		bv = fc.freshConst("sk_"+q.Var, "Int")
+		*env.sks = append(*env.sks, bv)
+	}
 	var rng string
 	var vt types.Type = tInt
 	switch q.Kind {
 	case "range":
-		lo := fr.scalar(fr.evalSpec(q.Lo, env))
-		hi := fr.scalar(fr.evalSpec(q.Hi, env))
+		lo := fr.scalar(fr.evalSpec(q.Lo, env.unknownPol()))
+		hi := fr.scalar(fr.evalSpec(q.Hi, env.unknownPol()))
 		rng = sAnd(sApp("<=", lo, bv), sApp("<", bv, hi))
 	case "dom":
-		m := fr.evalSpec(q.Dom, env)
+		m := fr.evalSpec(q.Dom, env.unknownPol())
 		mp, ok := m.Typ.Underlying().(*types.Map)
 		if !ok {
 			return fr.specErr("dom() of non-map")
@@ -450,9 +501,32 @@ func (fr *Frame) specQuant(q *EQuant, env *SpecEnv) Val {
 	case "int":
 		rng = "true"
 	}
-	body := fr.evalBool(q.Body, env.withBound(q.Var, Val{S: bv, Typ: vt}))
+	benv := env.withBound(q.Var, Val{S: bv, Typ: vt})
+	if skolem {
+		body := fr.evalBool(q.Body, benv)
+		if q.All {
+			return Val{S: sImp(rng, body), Typ: tBool}
+		}
+		return Val{S: sAnd(rng, body), Typ: tBool}
+	}
+	// the quantifier stays: nothing inside it may be skolemised or recorded
+	record := !env.goal && !env.nopol && env.qs != nil && q.All && !env.neg
+	benv.nopol = true
+	benv.qs = nil
+	benv.sks = nil
+	body := fr.evalBool(q.Body, benv)
 	if q.All {
-		return Val{S: fmt.Sprintf("(forall ((%s Int)) %s)", bv, sImp(rng, body)), Typ: tBool}
+		full := sImp(rng, body)
+		var str string
+		if pats := innermostReads(full, bv); len(pats) > 0 && len(pats) <= 4 {
+			str = fmt.Sprintf("(forall ((%s Int)) (! %s :pattern (%s)))", bv, full, strings.Join(pats, " "))
+		} else {
+			str = fmt.Sprintf("(forall ((%s Int)) %s)", bv, full)
+		}
+		if record {
+			*env.qs = append(*env.qs, QInst{Forall: str, Var: bv, Inst: full})
+		}
+		return Val{S: str, Typ: tBool}
 	}
 	return Val{S: fmt.Sprintf("(exists ((%s Int)) %s)", bv, sAnd(rng, body)), Typ: tBool}
 }
@@ -549,12 +623,12 @@ func (fr *Frame) specCall(c *ECall, env *SpecEnv) Val {
 		if !need(3) {
 			break
 		}
-		cnd := fr.evalBool(c.Args[0], env)
+		cnd := fr.evalBool(c.Args[0], env.unknownPol())
 		a, b := argv(1), argv(2)
 		r := Val{S: sIte(cnd, fr.scalar(a), fr.scalar(b)), Typ: a.Typ}
 		return r
 	case "b2i":
-		return Val{S: sIte(fr.evalBool(c.Args[0], env), "1", "0"), Typ: tInt}
+		return Val{S: sIte(fr.evalBool(c.Args[0], env.unknownPol()), "1", "0"), Typ: tInt}
 	case "fresh":
 		// allocated after the pre-state
 		v := argv(0)
@@ -591,6 +665,18 @@ func (fr *Frame) specCall(c *ECall, env *SpecEnv) Val {
 			return fr.specErr("dercodes(): no asn1.Marshal call seen")
 		}
 		return Val{S: sSel(fc.lastMarshal.codes, arg(0)), Typ: tInt}
+	}
+	if sn, ok := specNatives[c.Fn]; ok && sn.n == nargs {
+		fr.specNative(c.Fn)
+		var as []string
+		for i := range c.Args {
+			as = append(as, arg(i))
+		}
+		t := tInt
+		if sn.isB {
+			t = tBool
+		}
+		return Val{S: sApp("u_"+c.Fn, as...), Typ: t}
 	}
 	// predicates
 	if p, ok := fc.eng.cs.Preds[c.Fn]; ok {
@@ -655,4 +741,113 @@ func (fr *Frame) declUninterp(name string, n int, res string) {
 	}
 	fc.declSet[k] = true
 	fc.decls = append(fc.decls, fmt.Sprintf("(declare-fun u_%s (%s) %s)", name, strings.TrimSpace(strings.Repeat("Int ", n)), res))
+}
+
+// innermostReads returns the distinct innermost (select A I) subterms whose index I mentions the bound variable v
+// and that contain no nested quantifier variable other than v. Used as a multi-pattern: it only fires when all
+// the reads of an instance already exist, which avoids matching loops on bodies like P(a[j], a[j-1]).
+func innermostReads(term, v string) []string {
+	var out []string
+	seen := map[string]bool{}
+	var walk func(s string) bool // returns whether s contains a qualifying select
+	mentions := func(s string) bool {
+		i := 0
+		for {
+			j := strings.Index(s[i:], v)
+			if j < 0 {
+				return false
+			}
+			j += i
+			end := j + len(v)
+			beforeOK := j == 0 || strings.ContainsRune("( )", rune(s[j-1]))
+			afterOK := end == len(s) || strings.ContainsRune("( )", rune(s[end]))
+			if beforeOK && afterOK {
+				return true
+			}
+			i = end
+		}
+	}
+	walk = func(s string) bool {
+		if !strings.HasPrefix(s, "(") {
+			return false
+		}
+		args := splitSexpr(s)
+		if len(args) == 0 {
+			return false
+		}
+		if args[0] == "forall" || args[0] == "exists" || args[0] == "!" && false {
+			// nested quantifier: do not look inside (its variables are not bound here)
+			return false
+		}
+		found := false
+		for _, a := range args[1:] {
+			if walk(a) {
+				found = true
+			}
+		}
+		if found {
+			return true
+		}
+		if args[0] == "select" && len(args) == 3 && mentions(args[2]) && !strings.Contains(s, "ite ") {
+			if !seen[s] {
+				seen[s] = true
+				out = append(out, s)
+			}
+			return true
+		}
+		return false
+	}
+	walk(term)
+	return out
+}
+
+// splitSexpr splits "(f a (g b) c)" into ["f", "a", "(g b)", "c"]
+func splitSexpr(s string) []string {
+	if len(s) < 2 || s[0] != '(' || s[len(s)-1] != ')' {
+		return nil
+	}
+	s = s[1 : len(s)-1]
+	var out []string
+	depth := 0
+	start := -1
+	inBar := false
+	for i := 0; i < len(s); i++ {
+		c := s[i]
+		if c == '|' {
+			inBar = !inBar
+			if start < 0 {
+				start = i
+			}
+			continue
+		}
+		if inBar {
+			continue
+		}
+		switch c {
+		case '(':
+			if depth == 0 && start < 0 {
+				start = i
+			}
+			depth++
+		case ')':
+			depth--
+			if depth == 0 {
+				out = append(out, s[start:i+1])
+				start = -1
+			}
+		case ' ', '\t', '\n':
+			if depth == 0 && start >= 0 {
+				out = append(out, s[start:i])
+				start = -1
+			}
+		default:
+			if start < 0 {
+				start = i
+			}
+		}
+	}
+	if start >= 0 {
+		out = append(out, s[start:])
+	}
+	return out
 }
